@@ -197,13 +197,13 @@ func runC01(c *fw.Ctx, idx int) fw.Result {
 			// the output file already exists and holds a longer earlier result
 			os.WriteFile(filepath.Join(dir, "out.fasta"), []byte(staleContent(len(expected)+300)), 0644)
 		}
-		br := fw.RunBin(c.Bin, args, stdin, nil, "", 60*time.Second)
+		br := fw.RunBin(c.Bin, args, stdin, nil, "", 40*time.Second)
 		res.Evals++
 		res.Count("binary_runs", 1)
 		ob, _ := os.ReadFile(filepath.Join(dir, "out.fasta"))
 		os.RemoveAll(dir)
 		if br.TimedOut {
-			res.Inconclusive = append(res.Inconclusive, "binary watchdog fired")
+			binHang(&res, br, "toMultiAlign", files, args)
 		} else if br.Exit != 0 || string(ob) != expected {
 			files["observed.fasta"] = string(ob)
 			files["stderr.txt"] = string(br.Stderr)
